@@ -59,3 +59,11 @@ package distributed
 //@ func (SessionMetadatasState).ByPeer(s SessionMetadatasState, peer uint64) (r []api.SessionMetadatas)
 //@   ensures r == peer_sessions(s, peer)
 //@   pure
+
+// ---- lock discipline (C20) ---------------------------------------------------------------------
+//@ guarded sessionMetadatasState.sessions by mu
+// (subscriptionsState.subscriptions and topicsState.tree are set once at construction; the tries they point to
+// carry their own lock)
+//@ immutable subscriptionsState.subscriptions, peer, bcast, recorder
+//@ immutable topicsState.tree, bcast
+//@ immutable sessionMetadatasState.peer, bcast, recorder
